@@ -163,3 +163,4 @@ fn k_reply_owned_capacity() {
     kani::cover!(topic == Some(0) && corr == Some(3));
     kani::cover!(topic == Some(1));
 }
+
